@@ -126,7 +126,7 @@ class Scen:
         if r < 0.65:
             tok = s.rnd.random() < 0.5; priv = s.logged and s.rnd.random() < 0.5; s.n += 1
             sess = s.rnd.choice([s.rw, s.rw2] if tok else s.sessions)
-            s.add('extra%d' % s.n, 'data', {'CKA_CLASS': ck.CKO_DATA, 'CKA_VALUE': os.urandom(0) + b'x%d' % s.n}, tok, priv, sess=sess); return 'create'
+            s.add('extra%d' % s.n, 'data', {'CKA_CLASS': ck.CKO_DATA, 'CKA_VALUE': b'x%d' % s.n}, tok, priv, sess=sess); return 'create'
         if r < 0.8:
             c = [o for o in s.objs.values() if o['name'].startswith('extra') and s.visible(o)]
             if c:
@@ -179,7 +179,7 @@ class Scen:
     def changes(s, o, n):
         """n valid modifications of object o (ordered, distinct types)"""
         r = s.rnd; c = [('CKA_LABEL', b'L%d' % r.randrange(10 ** 6))]
-        if o['cls'] == 'data': c += [('CKA_APPLICATION', b'A%d' % r.randrange(1000)), ('CKA_VALUE', os.urandom(0) + b'V%d' % r.randrange(10 ** 6)), ('CKA_OBJECT_ID', b'\x06\x03\x2a\x03' + bytes([r.randrange(100)]))]
+        if o['cls'] == 'data': c += [('CKA_APPLICATION', b'A%d' % r.randrange(1000)), ('CKA_VALUE', b'V%d' % r.randrange(10 ** 6)), ('CKA_OBJECT_ID', b'\x06\x03\x2a\x03' + bytes([r.randrange(100)]))]
         elif o['cls'] == 'cert': c += [('CKA_ID', b'I%d' % r.randrange(1000)), ('CKA_ISSUER', b'\x30\x00'), ('CKA_SERIAL_NUMBER', b'\x02\x01' + bytes([r.randrange(100)]))]
         else:
             c += [('CKA_ID', b'I%d' % r.randrange(1000)), ('CKA_START_DATE', b'2024010%d' % r.randrange(1, 9)), ('CKA_END_DATE', b'2030120%d' % r.randrange(1, 9))]
@@ -589,7 +589,7 @@ def run(ctx):
                 'objects existed before (fault cases: the fault was really injected)')
     ctx.need('asan'); base = dict(paths=ctx.paths, hdr=ctx.paths['asan']['hdr'], cfg='asan', scratch=ctx.scratch)
     jobs = []
-    per = 60; nfile = ctx.q(36, 330); ndb = ctx.q(10, 170)
+    per = 60; nfile = ctx.q(30, 330); ndb = ctx.q(8, 170)
     for i in range(nfile + ndb):
         jobs.append(dict(base, what='scenario', seed=ctx.seed * 1000003 + i, backend='file' if i < nfile else 'db', ncalls=per))
     # fault enumeration: every FS operation of every call kind (file; db in thorough), EIO (and ENOSPC in thorough)
